@@ -30,7 +30,8 @@ Deref(h, v) == IF v.k # "ref" THEN v
                       [] c.k = "op" -> [k |-> "op", name |-> c.name, hasargs |-> c.hasargs, modes |-> c.modes,
                                         args |-> IF c.hasargs THEN Deref(h, Ref(c.args)) ELSE [k |-> "none"],
                                         kw |-> IF c.hasargs THEN Deref(h, Ref(c.kw)) ELSE [k |-> "none"]]
-Content(h, ob) == [ops |-> [i \in 1..Len(ob.ops) |-> Deref(h, Ref(ob.ops[i]))], vars |-> Deref(h, Ref(ob.vars)), params |-> ob.params]
+Content(h, ob) == [ops |-> [i \in 1..Len(ob.ops) |-> Deref(h, Ref(ob.ops[i]))], vars |-> Deref(h, Ref(ob.vars)), opts |-> Deref(h, Ref(ob.opts)),
+                   params |-> ob.params]
 
 \* references reachable from a cell (for the aliasing invariant)
 RECURSIVE Reach(_, _)
@@ -40,7 +41,7 @@ Reach(h, c) == LET x == h[c]
                              [] x.k = "arr" -> {}
                              [] x.k = "op" -> IF x.hasargs THEN {x.args, x.kw} ELSE {}
                IN {c} \cup UNION {Reach(h, d) : d \in kids}
-CellsOf(h, ob) == UNION {Reach(h, ob.ops[i]) : i \in 1..Len(ob.ops)} \cup Reach(h, ob.vars)
+CellsOf(h, ob) == UNION {Reach(h, ob.ops[i]) : i \in 1..Len(ob.ops)} \cup Reach(h, ob.vars) \cup Reach(h, ob.opts)
 Independent == \A a, b \in DOMAIN objs : a # b => CellsOf(heap, objs[a]) \cap CellsOf(heap, objs[b]) = {}
 
 \* ---- instantiation: copy every cell of the template to fresh ids, replacing parameters
@@ -59,7 +60,7 @@ Call(t, env, new) ==
        THEN /\ heap' = [c \in (DOMAIN heap) \cup (next..(next + ob.hi - ob.lo)) |->
                           IF c \in DOMAIN heap THEN heap[c] ELSE CopyCell(heap[c - shift], env, shift)]
             /\ objs' = [n \in (DOMAIN objs) \cup {new} |-> IF n = new THEN [kind |-> "instance", lo |-> next, hi |-> next + ob.hi - ob.lo,
-                                                             ops |-> [i \in 1..Len(ob.ops) |-> ob.ops[i] + shift], vars |-> ob.vars + shift, params |-> {}]
+                                                             ops |-> [i \in 1..Len(ob.ops) |-> ob.ops[i] + shift], vars |-> ob.vars + shift, opts |-> ob.opts + shift, params |-> {}]
                                                            ELSE objs[n]]
             /\ next' = next + (ob.hi - ob.lo) + 1
        ELSE \* deviation: the instance shares the template's cells (values written through)
@@ -107,6 +108,11 @@ Mutate(o, kind, i) ==
                /\ heap' = [heap EXCEPT ![c].rows[1][1] = Num(-5)] /\ UNCHANGED <<objs, next>>)
        [] kind = "set_var" ->
             (i = 1 /\ heap' = [heap EXCEPT ![ob.vars].items = DictPut(@, "newvar", Num(1))] /\ UNCHANGED <<objs, next>>)
+       [] kind = "set_option" ->
+            (i = 1 /\ heap' = [heap EXCEPT ![ob.opts].items = DictPut(@, "shots", Num(99))] /\ UNCHANGED <<objs, next>>)
+       [] kind = "append_option_list" ->
+            (i = 1 /\ \E j \in 1..Len(heap[ob.opts].items) : heap[ob.opts].items[j].v.k = "ref"
+               /\ heap' = [heap EXCEPT ![heap[ob.opts].items[j].v.c].xs = Append(@, Num(3))] /\ UNCHANGED <<objs, next>>)
        [] kind = "rename_op" ->
             (i = 1 /\ heap' = [heap EXCEPT ![ob.ops[1]].name = "Renamed"] /\ UNCHANGED <<objs, next>>)
 =============================================================================
